@@ -64,3 +64,73 @@ def mimeWs : List Bool := {lean_list([lean_bool(b) for b in mime_ws])}
 end Wz.Gen.AcceptTbl
 """
     return write("AcceptTbl", body, "src/werkzeug/http.py, src/werkzeug/datastructures/accept.py")
+
+
+# ---------------------------------------------------------------------------------------------
+# the Request attributes and the MIMEAccept convenience flags, read from the AST
+
+
+def _src_tree(rel):
+    import ast
+    import os
+
+    from extract_lib import REPO
+
+    with open(os.path.join(REPO, "src", rel)) as f:
+        return ast.parse(f.read())
+
+
+@generator("AcceptApi")
+def gen_accept_api():
+    import ast
+
+    # Request.accept_*: `return parse_accept_header(self.headers.get(<header>)[, <class>])`
+    attrs = []
+    tree = _src_tree("werkzeug/sansio/request.py")
+    for cls in [n for n in tree.body if isinstance(n, ast.ClassDef) and n.name == "Request"]:
+        for fn in [n for n in cls.body if isinstance(n, ast.FunctionDef) and n.name.startswith("accept_")]:
+            calls = [c for c in ast.walk(fn) if isinstance(c, ast.Call) and getattr(c.func, "id", None) == "parse_accept_header"]
+            assert len(calls) == 1, fn.name
+            call = calls[0]
+            get = call.args[0]
+            assert isinstance(get, ast.Call) and ast.unparse(get.func) == "self.headers.get" and len(get.args) == 1, ast.unparse(get)
+            header = get.args[0].value
+            clsname = ast.unparse(call.args[1]) if len(call.args) > 1 else "Accept"
+            attrs.append(f"({lean_chars(fn.name)}, {lean_chars(header)}, {lean_chars(clsname)})")
+    # MIMEAccept.accept_*: the media types tested with `in self` and the other flags consulted
+    flags = []
+    tree = _src_tree("werkzeug/datastructures/accept.py")
+    for cls in [n for n in tree.body if isinstance(n, ast.ClassDef) and n.name == "MIMEAccept"]:
+        for fn in [n for n in cls.body if isinstance(n, ast.FunctionDef) and n.name.startswith("accept_")]:
+            lits, refs, shape = [], [], []
+            for n in ast.walk(fn):
+                if isinstance(n, ast.Compare):
+                    assert len(n.ops) == 1 and isinstance(n.ops[0], ast.In) and ast.unparse(n.comparators[0]) == "self", ast.unparse(n)
+                    lits.append(n.left.value)
+                elif isinstance(n, ast.Attribute) and isinstance(n.value, ast.Name) and n.value.id == "self":
+                    refs.append(n.attr)
+                elif isinstance(n, ast.BoolOp):
+                    shape.append(type(n.op).__name__)
+            assert all(x == "Or" for x in shape), (fn.name, shape)
+            flags.append(f"({lean_chars(fn.name)}, [{', '.join(lean_chars(x) for x in lits)}], [{', '.join(lean_chars(x) for x in refs)}])")
+    # which classes override which of the methods the model gives per class
+    acc = importlib.import_module("werkzeug.datastructures.accept")
+    over = []
+    for cname in ("Accept", "MIMEAccept", "LanguageAccept", "CharsetAccept"):
+        c = getattr(acc, cname)
+        own = sorted(k for k in vars(c) if k in ("_specificity", "_value_matches", "best_match", "quality", "_best_single_match", "find", "index", "__contains__", "__getitem__", "to_header", "values", "best", "__init__"))
+        over.append(f"({lean_chars(cname)}, [{', '.join(lean_chars(k) for k in own)}])")
+    body = f"""namespace Wz.Gen.AcceptApi
+
+/-- `Request.accept_*`: (attribute, request header read, class built), in source order -/
+def requestAttrs : List (List Char × List Char × List Char) := {lean_list(attrs, 1)}
+
+/-- `MIMEAccept.accept_*`: (flag, media types tested with `in self`, other flags or-ed in) -/
+def mimeFlags : List (List Char × List (List Char) × List (List Char)) := {lean_list(flags, 1)}
+
+/-- which of the negotiation methods each class defines itself (the rest is inherited from `Accept`) -/
+def overrides : List (List Char × List (List Char)) := {lean_list(over, 1)}
+
+end Wz.Gen.AcceptApi
+"""
+    return write("AcceptApi", body, "src/werkzeug/sansio/request.py, src/werkzeug/datastructures/accept.py")
